@@ -345,6 +345,95 @@ def run(fx, tier):
                 'filters are size-checked first', key='C16:R-TABLE:validate_topic_filter:size-rule', where=g.file)
         break
 
+    # No verdict is lost: a value obtained from a validator is examined before it can be overwritten or dropped.
+    # (`for (t : topics) ec = validate_topic(t); if (ec) ...` keeps only the LAST element's verdict — every earlier
+    # malformed element is accepted and sent.)
+    OPS16 = ('publish_send_op', 'subscribe_op', 'unsubscribe_op', 'disconnect_op')
+    n_verdict = 0
+    seen_v = set()
+    for g in fx.fns:
+        if g.cls not in OPS16 or g.lam or not g.blocks:
+            continue
+        sig = (g.cls, g.n, g.tag, g.tu)
+        if sig in seen_v:
+            continue
+        seen_v.add(sig)
+
+        def is_verdict_call(x):
+            x = g.resolve(x) if isinstance(x, dict) and x.get('k') == 'elem' else x
+            x = core(x)
+            return isinstance(x, dict) and x.get('k') == 'call' and (str(callee_name(x)).startswith('validate') or str(callee_name(x)).startswith('is_valid'))
+
+        def writes(x):
+            """decl id written by element x (plain definition, not a read-modify-write), and the rhs"""
+            if not isinstance(x, dict):
+                return None, None
+            if x.get('k') == 'decls':
+                for d in x['ds']:
+                    if d.get('k') == 'decl' and d.get('init') is not None:
+                        return d['d'], d['init']
+            if x.get('k') == 'assign' and x.get('op') == '=' and isinstance(strip(x.get('l')), dict) and strip(x['l']).get('k') == 'ref':
+                return strip(x['l']).get('d'), x.get('r')
+            if x.get('k') == 'call' and x.get('op') == '=' and len(x.get('args', [])) == 2 and isinstance(strip(x['args'][0]), dict) \
+                    and strip(x['args'][0]).get('k') == 'ref' and strip(x['args'][0]).get('dk') in ('local', 'param'):
+                return strip(x['args'][0]).get('d'), x['args'][1]
+            return None, None
+
+        def reads(x, d):
+            """does element x read variable d (any mention other than being the target of a plain write)?"""
+            wd, rhs = writes(x)
+            if wd == d:
+                return contains(rhs, lambda n: n.get('k') == 'ref' and n.get('d') == d)
+            return contains(x, lambda n: n.get('k') == 'ref' and n.get('d') == d)
+        for b0, blk0 in g.blocks.items():
+            for i0 in range(len(blk0.elems)):
+                x0 = g.resolve({'k': 'elem', 'b': b0, 'i': i0})
+                d, rhs = writes(x0)
+                if d is None or not is_verdict_call(rhs):
+                    continue
+                n_verdict += 1
+                # forward search: a redefinition or the function exit reached without a read loses the verdict
+                lost = None
+                seen_pos = set()
+                stack = [(b0, i0 + 1)]
+                while stack and lost is None:
+                    b_, i_ = stack.pop()
+                    if (b_, i_) in seen_pos:
+                        continue
+                    seen_pos.add((b_, i_))
+                    blk = g.blocks[b_]
+                    stop = False
+                    for j in range(i_, len(blk.elems)):
+                        x = g.resolve({'k': 'elem', 'b': b_, 'i': j})
+                        if reads(x, d):
+                            stop = True
+                            break
+                        wd, _ = writes(x)
+                        if wd == d:
+                            lost = 'overwritten at line %s before it is examined' % blk.lines[j]
+                            stop = True
+                            break
+                    if stop:
+                        continue
+                    if blk.term and blk.term.get('cond') is not None and contains(g.term_cond(b_), lambda n: n.get('k') == 'ref' and n.get('d') == d):
+                        continue
+                    succs = [s_ for s_ in blk.succ if s_ is not None]
+                    if b_ == g.exit or (not succs and not blk.noret):
+                        lost = 'never examined before the function returns'
+                    for s_ in succs:
+                        if s_ == g.exit:
+                            # reaching the exit block: was there a return of the value on the way? (a read) — no: not read
+                            lost = lost or 'never examined before the function returns'
+                        else:
+                            stack.append((s_, 0))
+                v.check(lost is None, 'R-FLOW', '%s::%s%s:verdict@%s [%s]' % (g.cls, g.n, '(%s)' % g.tag if g.tag else '', blk0.lines[i0], g.tu),
+                        'the verdict of %s is examined before it can be overwritten or dropped' % callee_name(core(g.resolve(rhs) if isinstance(rhs, dict) and rhs.get('k') == 'elem' else rhs))
+                        if lost is None else 'the verdict of %s is %s: an earlier malformed element is accepted' % (
+                            callee_name(core(g.resolve(rhs) if isinstance(rhs, dict) and rhs.get('k') == 'elem' else rhs)), lost),
+                        key='C16:R-FLOW:%s::%s:verdict-lost' % (g.cls, g.n), where='%s:%s' % (g.path_file(), blk0.lines[i0]))
+    if n_verdict < 3 and not v.violations:
+        raise AnalysisBroken('lost-verdict rule: only %d stored validator verdicts found' % n_verdict)
+
     # Value ranges — decided on the branch structure of the validators: the comparisons of the value with constants taken
     # on each path are evaluated at the boundary points; the points that reach the success outcome / an error outcome
     # must be exactly the admissible / inadmissible ones (any formulation of the comparisons will do)
